@@ -121,8 +121,100 @@ pub fn op_strategy(f: Flavour, lifecycle_w: u32) -> BoxedStrategy<Op> {
 
 pub fn scenario_strategy(flavours: Vec<Flavour>, lifecycle_w: u32, max_ops: usize) -> BoxedStrategy<Scenario> {
   let caps = prop_oneof![4 => Just(1usize), 3 => Just(2usize), 3 => Just(3usize), 1 => Just(4usize), 2 => Just(5usize), 1 => Just(16usize)];
-  (proptest::sample::select(flavours), proptest::bool::weighted(0.85), caps)
+  let uniform = (proptest::sample::select(flavours.clone()), proptest::bool::weighted(0.85), caps)
     .prop_flat_map(move |(f, a, cap)| proptest::collection::vec(op_strategy(f, lifecycle_w), 1..max_ops).prop_map(move |ops| Scenario { flavour: f, async_start: a, cap, ops }))
+    .boxed();
+  prop_oneof![3 => uniform, 1 => phased_strategy(flavours)].boxed()
+}
+
+/// Phase-structured histories: the multi-step shapes that matter for the wake / cancel /
+/// disconnect protocols (several waiters of mixed forms parked on one side, a few operations
+/// of the other side, teardown of that other side, cancellations and handle drops among the
+/// waiters in a generated order, then polls) are rare under uniformly random ops; this family
+/// builds them by construction.  Same alphabet, same interpreter, same oracles.
+fn phased_strategy(flavours: Vec<Flavour>) -> BoxedStrategy<Scenario> {
+  let h = any::<u16>();
+  (proptest::sample::select(flavours), any::<bool>(), prop_oneof![3 => Just(1usize), 2 => Just(2usize), 1 => Just(3usize)])
+    .prop_flat_map(move |(f, recv_side, cap)| {
+      let batch = f.has_batch();
+      // one parked waiter per entry: (clone a handle first?, form 0..4, n)
+      let waiter = (any::<bool>(), 0u8..4, 1u16..4);
+      // a few ops of the other side
+      let other = (0u8..4, h, 1u16..4);
+      // what happens among the waiters afterwards
+      let after = prop_oneof![
+        3 => h.prop_map(Op::CancelWoken),
+        3 => h.prop_map(Op::Cancel),
+        2 => h.prop_map(if recv_side { Op::DropRx } else { Op::DropTx }),
+        1 => h.prop_map(if recv_side { Op::CloseRx } else { Op::CloseTx }),
+        1 => h.prop_map(if recv_side { Op::CloseRxInFlight } else { Op::CloseTxInFlight }),
+        1 => h.prop_map(if recv_side { Op::ConvRx } else { Op::ConvTx }),
+        3 => h.prop_map(Op::Poll),
+        2 => Just(Op::PollWoken),
+        1 => h.prop_map(Op::PollNewWaker),
+      ];
+      (
+        proptest::collection::vec(waiter, 1..4),
+        proptest::collection::vec(other, 0..4),
+        // teardown of the other side: 0 = none, 1 = drop every handle, 2 = close every handle
+        0u8..3,
+        proptest::collection::vec(after, 0..5),
+        any::<bool>(),
+      )
+        .prop_map(move |(waiters, others, teardown, afters, prefill)| {
+          let mut ops = Vec::new();
+          if !recv_side && prefill {
+            // senders can only park on a full channel
+            for _ in 0..cap {
+              ops.push(Op::TrySend(0));
+            }
+          }
+          for (i, (clone_first, form, n)) in waiters.iter().enumerate() {
+            if *clone_first && i > 0 {
+              ops.push(if recv_side { Op::CloneRx(0) } else { Op::CloneTx(0) });
+            }
+            let hsel = u16::MAX; // the newest handle
+            let form = if batch { *form } else { 0 };
+            ops.push(match (recv_side, form) {
+              (true, 1) => Op::SpawnRecvBatch(hsel, *n),
+              (true, 2) => Op::SpawnRecvBatchMut(hsel, *n),
+              (true, 3) => Op::SpawnNext(hsel),
+              (true, _) => Op::SpawnRecv(hsel),
+              (false, 1) => Op::SpawnSendBatch(hsel, *n),
+              (false, 2) => Op::SpawnSendBatchMut(hsel, *n),
+              (false, _) => Op::SpawnSend(hsel),
+            });
+          }
+          for (kind, a, n) in others.iter() {
+            ops.push(match (recv_side, *kind) {
+              (true, 0) => Op::TrySend(*a),
+              (true, 1) => Op::SpawnSend(*a),
+              (true, 2) if batch => Op::TrySendBatch(*a, *n),
+              (true, _) => Op::TrySend(*a),
+              (false, 0) => Op::TryRecv(*a),
+              (false, 1) => Op::SpawnRecv(*a),
+              (false, 2) if batch => Op::TryRecvBatch(*a, *n),
+              (false, _) => Op::TryRecv(*a),
+            });
+          }
+          match teardown {
+            1 => {
+              for _ in 0..3 {
+                ops.push(if recv_side { Op::DropTx(0) } else { Op::DropRx(0) });
+              }
+            }
+            2 => {
+              for k in 0..3u16 {
+                ops.push(if recv_side { Op::CloseTx(k.wrapping_mul(21845)) } else { Op::CloseRx(k.wrapping_mul(21845)) });
+              }
+            }
+            _ => {}
+          }
+          ops.extend(afters.into_iter());
+          ops.push(Op::Checkpoint);
+          Scenario { flavour: f, async_start: true, cap, ops }
+        })
+    })
     .boxed()
 }
 
